@@ -250,6 +250,10 @@ func runCli(em *emitter, id int, cfg cliCfg, bin string, dirs, focus map[string]
 	args := []string{cfg.Cmd}
 	fpath := filepath.Join(tmp, fmt.Sprintf("out-%d.txt", id))
 	os.Remove(fpath)
+	if cfg.File && id%2 == 0 {
+		// the output file may already exist (an earlier, longer report)
+		os.WriteFile(fpath, []byte(strings.Repeat("stale line of an earlier report\n", 4000)), 0o644)
+	}
 	if cfg.Cmd == "list" {
 		args = append(args, "--dirpath", dirs[cfg.Dir])
 		if cfg.Exposure {
